@@ -201,7 +201,7 @@ static Iso run_isolated(World &w, const std::string &prop, const Knobs &k, const
     close(fd[0]);
     int st = 0; waitpid(pid, &st, 0);
     out.choices.assign(g_shm->r[MAXW].choices, g_shm->r[MAXW].choices + g_shm->r[MAXW].nchoices);
-    if (hang) { out.cls = "HANG"; out.detail = "run did not terminate within 12 s wall (a normal run takes milliseconds)"; if (g_shm->r[MAXW].note[0]) out.detail = std::string("[while: ") + g_shm->r[MAXW].note + "] " + out.detail; out.hash = g_shm->r[MAXW].trace_hash; out.crashed = true; return out; }
+    if (hang) { out.cls = "HANG"; out.detail = "run did not terminate within 12 s wall (a normal run takes milliseconds)"; if (g_shm->r[MAXW].note[0]) { std::string nt = g_shm->r[MAXW].note; out.detail = std::string("[while: ") + nt + "] " + out.detail; size_t tp = nt.find("taint="); if (tp != std::string::npos) { size_t e = nt.find(' ', tp); out.taint = nt.substr(tp + 6, e == std::string::npos ? std::string::npos : e - tp - 6); } } out.hash = g_shm->r[MAXW].trace_hash; out.crashed = true; return out; }
     if (WIFEXITED(st) && WEXITSTATUS(st) == 0) {
         std::vector<std::string> f; size_t a = 0;
         for (size_t i = 0; i < buf.size(); i++) if (buf[i] == '\x1f') { f.push_back(buf.substr(a, i - a)); a = i + 1; }
@@ -220,7 +220,8 @@ static Iso run_isolated(World &w, const std::string &prop, const Knobs &k, const
             if (f0 != std::string::npos && f3 != std::string::npos) out.detail += " | " + e.substr(f0, f3 - f0); }
     }
     if (out.detail.empty()) out.detail = out.cls;
-    if (g_shm->r[MAXW].note[0]) out.detail = std::string("[while: ") + g_shm->r[MAXW].note + "] " + out.detail;
+    if (g_shm->r[MAXW].note[0]) { std::string nt = g_shm->r[MAXW].note; out.detail = std::string("[while: ") + nt + "] " + out.detail;
+        size_t tp = nt.find("taint="); if (tp != std::string::npos) { size_t e = nt.find(' ', tp); out.taint = nt.substr(tp + 6, e == std::string::npos ? std::string::npos : e - tp - 6); } }
     return out;
 }
 
@@ -449,6 +450,7 @@ int sim_main(int argc, char **argv, World &w) {
                     else {      // died inside run cur: that is an observation about the code under test
                         uint64_t idx = g_shm->w[i].cur; RawViol v; v.idx = idx;
                         v.cls = wp[i].killed ? "HANG" : (WIFEXITED(st) && WEXITSTATUS(st) == 77) ? "MEMORY" : WIFSIGNALED(st) ? "CRASH-SIG" + std::to_string(WTERMSIG(st)) : "CRASH-EXIT" + std::to_string(WEXITSTATUS(st));
+                        { std::string nt = g_shm->r[i].note; size_t tp = nt.find("taint="); if (tp != std::string::npos) { size_t e = nt.find(' ', tp); v.taint = nt.substr(tp + 6, e == std::string::npos ? std::string::npos : e - tp - 6); } }
                         raw.push_back(v); g_shm->w[i].viol++;
                         if (idx + W < N && !g_shm->stop) spawn(i, idx + W); else live--;
                     }
@@ -461,7 +463,7 @@ int sim_main(int argc, char **argv, World &w) {
             else if (now_s() - last_progress[i] > 20 && g_shm->w[i].started == 1) { wp[i].killed = true; kill(wp[i].pid, SIGKILL); last_progress[i] = now_s(); }
         }
         size_t untainted = 0; for (auto &v : raw) if (v.taint.empty()) untainted++;
-        if (untainted >= 48 || raw.size() >= 400) g_shm->stop = 1;
+        if (untainted >= 48 || raw.size() >= 4000) g_shm->stop = 1;   // known-finding (tainted) reports are capped per worker and key, they do not end the batch
     }
     double t_batch = now_s() - t0;
 
